@@ -83,6 +83,10 @@ def gen(streams, tier, i):
             t = hr.choice(removed)
             ops.append({"op": "add", "line": t, "as": "str"})
             m.add_text(t)
+        elif r < 0.66 and version == "gfa1" and any(x.rt in ("L", "C") and x.tag("ID") for x in m.recs):
+            rec = hr.choice([x for x in m.recs if x.rt in ("L", "C") and x.tag("ID")])
+            ops.append({"op": "del_tag", "text": rec.render(), "tag": "ID"})
+            m.del_tag(rec, "ID")
         elif r < 0.70:
             ops.append({"op": "unused_name"})
         elif r < 0.78 and version == "gfa1":
@@ -258,7 +262,7 @@ def run(scn, st):
                                          (n, op["id"], new, out.excname, str(out.exc)[:200]),
                                          op=kind, rt=rec.rt, exc=out.excname, frame=out.frame)
                 m.rename(op["id"], new)
-        elif kind in ("rm",):
+        elif kind in ("rm", "del_tag"):
             exp2 = c05.model_apply(m, op, st)
             if exp2 == "skip":
                 continue
